@@ -455,6 +455,30 @@ pub fn run(a: &Args) {
             }
         } }
     } }
+    // RaceLaps in IS_STA / IS_RST, every byte value.  InSim.txt: "RaceLaps (rl): (0 = practice) (1-99: 1-99 laps) (100-190: 100-1000 laps,
+    // laps = (rl - 100) * 10 + 100) (191-238: 1-48 hours, hours = rl - 190)"; 239..255 are not assigned (only required to decode)
+    for sname in ["IS_STA", "IS_RST"] { if let Some(sp) = spec.structs.iter().find(|x| x.name == sname) {
+        let Some(ti) = sp.fields.iter().position(|f| f.spath == "RaceLaps") else { continue };
+        let off = 2 + sp.fields[..ti].iter().map(|f| enc_field(f, None, 0).len()).sum::<usize>();
+        for rl in 0..=255u8 { for compressed in [true, false] {
+            let asg = Asg { fixed: BTreeMap::new(), rows: vec![], text: vec![], words: vec![] };
+            let Some(mut f) = build(sp, &asg, &spec, compressed) else { continue };
+            if off >= f.len() { continue; }
+            f[off] = rl;
+            st.evaluations += 1; st.bump("vectors:race length bytes");
+            let id = format!("{} {}", mode_tag(compressed), hex(&f));
+            let want = match rl { 0 => Some("Practice".to_string()), 1..=99 => Some(format!("Laps({rl})")), 100..=190 => Some(format!("Laps({})", (rl as usize - 100) * 10 + 100)), 191..=238 => Some(format!("Hours({})", rl - 190)), _ => None };
+            match decode_buf(compressed, &f) {
+                Dec::Got(p, _) => {
+                    let dbg = format!("{:?}", p); obs.checked += 1;
+                    let shown = dbg.split("racelaps: ").nth(1).map(|x| { let e = x.find(|c: char| c == ',' || c == ' ').unwrap_or(x.len()); x[..e].to_string() }).unwrap_or_default();
+                    if let Some(w) = &want { if shown != *w { st.fail(format!("[C02 {sname}] RaceLaps = {rl} means {w} but is read back as `{shown}`"), id.clone()); } }
+                    if want.is_some() { match encode_p(compressed, &p) { Enc::Ok(e) if e == f => {}, Enc::Ok(e) => st.fail(format!("[C02 {sname}] RaceLaps = {rl} re-encodes as {}", e.get(off).copied().unwrap_or(0)), id.clone()), _ => st.fail(format!("[C02 {sname}] RaceLaps = {rl}: the decoded packet does not encode"), id.clone()) } }
+                },
+                d => st.fail(format!("[C02 {sname}] a frame whose RaceLaps byte is {rl} is not decoded: {}", crate::wire::cls_string(&d)), id.clone()),
+            }
+        } }
+    } }
     // count bytes after histories of the typed API (IS_MAL NumM / IS_IPB NumB), IS_VER field positions for any version value
     crate::wire::typed_api_checks("C02", a, &mut st);
     // CName[4] / SkinID in every packet that carries one: the v9 rule (three alphanumerics + NUL = official car, zeros = unknown, else mod id)
